@@ -505,3 +505,25 @@ func writeSmallExts(repoRoot, srcRoot, verifRoot string, check bool) int {
 	}
 	return stale
 }
+
+// writeCurveTemplate installs a template whose only parameter is the curve package name (CURVEPKG), for packages
+// ecc/<curve>/... (the curve package name is read from ecc/<curve>/g1.go).
+func writeCurveTemplate(repoRoot, srcRoot, verifRoot, tmpl, fileName string, pkgs []string, check bool) int {
+	b, err := os.ReadFile(filepath.Join(verifRoot, "contracts", tmpl))
+	if err != nil {
+		return 0
+	}
+	stale := 0
+	for _, p := range pkgs {
+		rel := strings.TrimPrefix(p, "./")
+		parts := strings.Split(rel, "/")
+		if len(parts) < 2 {
+			continue
+		}
+		src, _ := os.ReadFile(filepath.Join(srcRoot, parts[0], parts[1], "g1.go"))
+		pkg := ""
+		fmt.Sscanf(after(string(src), "\npackage "), "%s", &pkg)
+		stale += installText(filepath.Join(repoRoot, rel, fileName), strings.ReplaceAll(string(b), "CURVEPKG", pkg), check)
+	}
+	return stale
+}
